@@ -43,8 +43,8 @@ func genC47(seed uint64, tier string) *sim.Plan {
 	p := &sim.Plan{Cfg: map[string]int64{"clients": int64(r.Range(2, 5))}}
 	n := r.Range(5, 30)
 	for i := 0; i < n; i++ {
-		kind := r.Pick([]int{4, 3, 3, 3, 2, 2, 2})
-		st := sim.Step{Op: []string{"deliver", "flipsig", "otherkey", "otherhash", "fliphash", "regid", "xscheme"}[kind],
+		kind := r.Pick([]int{4, 3, 3, 3, 2, 2, 2, 2, 2})
+		st := sim.Step{Op: []string{"deliver", "flipsig", "otherkey", "otherhash", "fliphash", "regid", "xscheme", "hashtail", "rekey"}[kind],
 			A: r.Intn(5), I: []int64{int64(r.Intn(2)), int64(r.Intn(1000)), int64(r.Intn(4096)), int64(r.Intn(5))}}
 		p.Steps = append(p.Steps, st)
 	}
@@ -112,6 +112,48 @@ func execC47(env *sim.Env, p *sim.Plan) *sim.Result {
 			recvHash = hex.EncodeToString(b)
 			expect = false
 			tr.Fault("tamper_hash")
+		case "hashtail":
+			// the signed hash followed by a tail (an extra nibble, non-hex characters, a suffix):
+			// a different hash string, which must not verify
+			tails := []string{"0", "f", "zz", ":fee=0", "00", " ", "g0"}
+			recvHash = msg + tails[int(st.Int(2, 0))%len(tails)]
+			expect = false
+			tr.Fault("tamper_hash_tail")
+		case "rekey":
+			// a long-lived client / node object is refreshed after its exported PublicKey field was
+			// overwritten (obj.SetPublicKey(obj.PublicKey)): id and verification must follow the new key
+			o := (a + 1 + int(st.Int(3, 0))%max(nc-1, 1)) % nc
+			if o == a {
+				tr.Outcome("skip")
+				continue
+			}
+			c := &client.Client{}
+			c.SetSignatureSchemeType(schemes[sc])
+			if err := c.SetPublicKey(cls[o].ss[sc].GetPublicKey()); err != nil {
+				viol("register", "register-error/"+schemes[sc], err.Error())
+				continue
+			}
+			c.PublicKey = recvKey // field overwritten with the signer's key …
+			if err := c.SetPublicKey(c.PublicKey); err != nil { // … and refreshed
+				viol("register", "register-error/"+schemes[sc], err.Error())
+				continue
+			}
+			tr.Fault("client_object_rekeyed")
+			pkb, _ := hex.DecodeString(recvKey)
+			if want := encryption.Hash(pkb); c.ID != want {
+				viol("client-id", "client-id-not-hash-after-rekey/"+schemes[sc], fmt.Sprintf("id %s want %s", c.ID, want))
+			}
+			ok, err := c.Verify(sig, msg)
+			if !ok || err != nil {
+				viol("verify", "honest-rejected-after-rekey/"+schemes[sc], fmt.Sprintf("signature of the new key rejected (ok=%v err=%v)", ok, err))
+			}
+			osig, _ := cls[o].ss[sc].Sign(msg)
+			if ok, _ := c.Verify(osig, msg); ok {
+				viol("verify", "old-key-accepted-after-rekey/"+schemes[sc], "signature of the replaced key still verifies")
+			}
+			tr.Event("rekey scheme=%s ok=%v", schemes[sc], ok)
+			tr.Outcome("rekey")
+			continue
 		case "xscheme":
 			// same owner, signature of the other scheme delivered with this scheme's key
 			osig, err := cls[a].ss[1-sc].Sign(msg)
